@@ -19,14 +19,6 @@ def K(kid, **kw):
     KERNELS[kid] = kw
 
 
-# ---------------------------------------------------------------- C06
-K('C06.e', engine='symex', harness='C06/sort.cpp', entry='k_sort', tus=['src/Tree/neighbors_heap.cpp'],
-  defines={'quick': {'VF_N': 6}, 'thorough': {'VF_N': 8}},
-  bounds={'quick': 'size 0..6, arbitrary distinct-or-equal finite distances', 'thorough': 'size 0..8'},
-  validate={'quick': 30, 'thorough': 60},
-  what='simultaneous_sort/dual_swap (neighbors_heap.cpp): output ascending, (dist,idx) pairs stay a permutation; full recursion executed',
-  out='NaN distances; sizes above the bound',
-  assumptions=['distances are finite reals (comparison-only code: the real reading is exact for finite doubles)'])
 
 CLAIMS = {}
 NOTES = {}
@@ -35,43 +27,15 @@ NOT_APPLICABLE = {
            'the simulators numerics (Eigen/FFT/libm) cannot be encoded; the only solver-decidable clause (generators stay in range) is decided under C13.',
 }
 
-# ---------------------------------------------------------------- C20
-_C20TUS = ['src/Polygon/PolyElem.cpp', 'src/Basic/PolyLine2D.cpp', 'src/Basic/AStringable.cpp', 'src/Basic/ASerializable.cpp']
-for _nv, _tiers in ((3, ('quick', 'thorough')), (4, ('quick', 'thorough')), (5, ('quick', 'thorough')), (6, ('quick', 'thorough')),
-                    (7, ('thorough',)), (8, ('thorough',))):
-    K('C20.a.%d' % _nv, property='C20', engine='symex', harness='C20/inside.cpp', entry='k_polyelem_inside', tus=_C20TUS,
-      defines={'all': {'VF_NV': _nv}}, tiers=_tiers,
-      bounds={'quick': 'closed polyline with exactly %d vertices (arbitrary, also self-intersecting), vertices and query point on the integer grid |v|<=2^20, point off the boundary' % _nv},
-      timeout_ms={'quick': 240000, 'thorough': 1800000}, validate={'quick': 40, 'thorough': 100}, validate_doubles='int',
-      symex={'fp_exact': True}, require_exact=False,
-      what='PolyElem::inside (with PolyElem/PolyLine2D constructors, VectorT accessors) == exact even-odd crossing parity',
-      out='non-grid coordinates (floating rounding near the boundary), more vertices than the bound',
-      assumptions=['coordinates are integers with |v| <= 2^20: every +,-,* result is an integer below 2^53 (discharged as "exact" obligations) so the real-arithmetic verdict transfers to IEEE doubles; the single division is only compared (DESIGN 1.4 lemma)'])
-
-# ---------------------------------------------------------------- C03
-_COV = {
-    # name: (header, support, ndim, closed form, Lipschitz bound)
-    'CovSpherical': ('Covariances/CovSpherical.hpp', 1, 3, '((h) < 1 ? 1 - 1.5 * (h) + 0.5 * (h) * (h) * (h) : 0.)', 1.5),
-    'CovCubic': ('Covariances/CovCubic.hpp', 1, 3, '((h) < 1 ? 1 - 7*(h)*(h) + 8.75*(h)*(h)*(h) - 3.5*(h)*(h)*(h)*(h)*(h) + 0.75*(h)*(h)*(h)*(h)*(h)*(h)*(h) : 0.)', 2.5),
-    'CovTriangle': ('Covariances/CovTriangle.hpp', 1, 1, '((h) < 1 ? 1 - (h) : 0.)', 1.0),
-    'CovWendland0': ('Covariances/CovWendland0.hpp', 1, 3, '((h) < 1 ? (1-(h))*(1-(h)) : 0.)', 2.0),
-    'CovWendland1': ('Covariances/CovWendland1.hpp', 1, 3, '((h) < 1 ? (1-(h))*(1-(h))*(1-(h))*(1-(h))*(4*(h)+1) : 0.)', 2.5),
-    'CovWendland2': ('Covariances/CovWendland2.hpp', 1, 3, '((h) < 1 ? (1-(h))*(1-(h))*(1-(h))*(1-(h))*(1-(h))*(1-(h))*(35*(h)*(h)+18*(h)+3)/3. : 0.)', 2.5),
-    'CovReg1D': ('Covariances/CovReg1D.hpp', 2, 1, '((h) < 1 ? 1 - 3*(h) + 1.5*(h)*(h) + 0.25*(h)*(h)*(h) : (h) < 2 ? -2 + 3*(h) - 1.5*(h)*(h) + 0.25*(h)*(h)*(h) : 0.)', 3.0),
-    # published penta model (same polynomial as the library's own Tapering "Pentamodel")
-    'CovPenta': ('Covariances/CovPenta.hpp', 1, 3, '((h) < 1 ? 1 - (22./3.)*(h)*(h) + 33*(h)*(h)*(h)*(h) - 38.5*(h)*(h)*(h)*(h)*(h) + 16.5*(h)*(h)*(h)*(h)*(h)*(h)*(h) - 5.5*(h)*(h)*(h)*(h)*(h)*(h)*(h)*(h)*(h) + (5./6.)*(h)*(h)*(h)*(h)*(h)*(h)*(h)*(h)*(h)*(h)*(h) : 0.)', 3.0),
-}
-for _c, (_h, _sup, _nd, _ref, _lip) in _COV.items():
-    K('C03.a.' + _c, property='C03', engine='symex', harness='C03/poly.cpp', entries=['k_cov_shape', 'k_cov_pd'],
-      tus=['src/Covariances/%s.cpp' % _c],
-      defines={'all': {'VF_COV': _c, 'VF_HDR': '"%s"' % _h, 'VF_SUPPORT': _sup, 'VF_NDIM': _nd,
-                       'VF_REF(h)': _ref, 'VF_LIP': _lip},
-               # degree 8 / 11 polynomials with rounded rational coefficients: the conditions that involve
-               # sqrt(2), sqrt(3) do not finish inside the quick budget and are decided in the thorough tier
-               'quick': {'VF_PD_LEVEL': 1 if _c in ('CovWendland2', 'CovPenta') else 2}, 'thorough': {'VF_PD_LEVEL': 2}},
-      bounds={'quick': 'h, s free non-negative reals (a continuum); point sets: 1-D up to 5 equally spaced points with 9 weight vectors; 2-D triangle, square, hexagon, hexagon+centre; 3-D tetrahedron, octahedron, cube'},
-      timeout_ms={'quick': 100000, 'thorough': 1800000}, validate={'quick': 25, 'thorough': 60},
-      native=True,
-      what='%s::_evaluateCov, getMaxNDim: shape facts, published closed form, necessary positive-definiteness conditions per declared dimension' % _c,
-      out='sufficiency of positive definiteness (all point sets); anisotropy/rotation/sill (CovAniso, Tensor); rounding of the <=20 floating operations',
-      assumptions=['real-arithmetic reading of _evaluateCov; sqrt(2), sqrt(3) introduced as positive algebraic numbers'])
+# every property's kernels live in vf/reg/Cnn.py
+import glob as _glob
+import importlib.util as _ilu
+import os as _os
+import sys as _sys
+_sys.modules.setdefault('kernels', _sys.modules[__name__])
+for _f in sorted(_glob.glob(_os.path.join(_os.path.dirname(_os.path.abspath(__file__)), 'reg', 'C*.py'))):
+    _spec = _ilu.spec_from_file_location('reg_' + _os.path.basename(_f)[:-3], _f)
+    _m = _ilu.module_from_spec(_spec)
+    _spec.loader.exec_module(_m)
+    CLAIMS.update(getattr(_m, 'CLAIMS', {}))
+    NOTES.update(getattr(_m, 'NOTES', {}))
